@@ -504,9 +504,14 @@ def prove_delivery_relies(src_root, ex: Explorer):
                   'instead of the reply over a new connection or their own timeout')
     ex.run(closed, 'closed-leaves-waiters')
     C02.prove_reader_loop(src_root, ex)
+    # "no residue": the waiters of an indirect connection attempt (ticket, CannotConnect notice) are gone on every exit (C11.indirect.exit.*)
+    from contracts import C11
+    C11.prove_indirect(src_root, ex)
     for ob in ex.obligations:
         if ob.name.startswith('C02.'):
             ob.name = 'C12.delivery-in-order.' + ob.name[4:]
+        elif ob.name.startswith('C11.'):
+            ob.name = 'C12.no-residue.' + ob.name[4:]
 
 
 def items(src_root, tier):
